@@ -99,11 +99,11 @@ CmpLine(k) ==
     \/ Focus = "C11" /\ k = "tab"
     \/ Focus = "C01" /\ k = "enter"
     \/ Focus = "C13" /\ k \in {"write"}
-    \/ Focus = "C06" /\ k \in {"write", "prompt"}
+    \/ Focus \in {"C06", "C17"} /\ k \in {"write", "prompt"}
 CmpHist == Focus \in {"ALL", "C10", "C16", "C14"}
 CmpCalls == Focus \in {"ALL", "C01", "C12", "C16", "C17", "C04", "C14", "C07", "C08"}
-CmpPrompt == Focus \in {"ALL", "C01", "C06", "C13", "C16", "C14"}
-ChkSync == Focus \in {"ALL", "C06", "C16", "C14"}
+CmpPrompt == Focus \in {"ALL", "C01", "C06", "C13", "C16", "C14", "C17"}
+ChkSync == Focus \in {"ALL", "C06", "C16", "C14", "C17"}
 ChkFrame == Focus \in {"ALL", "C13"}
 ChkFlush == Focus \in {"ALL", "C15"}
 ChkUtf8 == Focus \in {"ALL", "C02"}
@@ -161,7 +161,9 @@ Common(r, post, t2) ==
     /\ ChkUtf8 => Chk(<<"C02 ill-formed UTF-8 handed out or echoed", r>>, AllWellFormed(r, post))
     /\ ChkSync => Chk(<<"C06 terminal does not show prompt + line with the cursor in place",
                          [row |-> t2.row, col |-> t2.col, err |-> t2.err], post>>,
-                      (r.res = "ok" /\ insync') => Sync(t2, post))
+                      \* (C17 ranges over all scalars, C1 controls included: the display is judged for the
+                      \* others, one cell per scalar)
+                      (r.res = "ok" /\ insync' /\ ~(Focus = "C17" /\ t2.err)) => Sync(t2, post))
     /\ ChkInv => Chk(<<"state invariant", r.st>>, RawOk(r.st) /\ StOk(cfg', post))
     /\ ChkRes => Chk(<<"C14 result does not report the sink failure", r.res, r.fired>>, (r.res = "err") <=> (r.fired > 0))
 
